@@ -3,7 +3,7 @@
 Runs the repository's pinned test suite inside <worktree-dir> (so `import pandera` resolves to that
 worktree) and reports every test that is in the pinned stable-pass list (/root/.vp/BASELINE.json)
 but does not pass now.  With extra args only those test paths are run (faster), and only stable
-tests that were actually collected are compared.  Exit 0 = no regression.  Full suite ~11-15 min; runs are queued (max 3 full runs at a time), so it may wait."""
+tests that were actually collected are compared.  Exit 0 = no regression.  Full suite ~11-15 min; runs are queued (max 4 full runs at a time), so it may wait."""
 import json, os, subprocess, sys, tempfile
 import xml.etree.ElementTree as ET
 wt = os.path.abspath(sys.argv[1]); sel = sys.argv[2:]
@@ -14,9 +14,9 @@ env["PYTHONPATH"] = wt
 cmd = ["/venv/bin/python", "-m", "pytest", "-ra", "-q", "-p", "no:cacheprovider", "--timeout=900",
        "--continue-on-collection-errors", f"--junitxml={xml}"] + sel
 import fcntl, time
-# at most 3 full-suite runs (and 4 partial runs) at a time on this machine: the others queue here
+# at most 4 full-suite runs (and 4 partial runs) at a time on this machine: the others queue here
 os.makedirs("/tmp/seedtools", exist_ok=True)
-slots = [open(f"/tmp/seedtools/.slot_{'full' if not sel else 'part'}_{i}", "w") for i in range(3 if not sel else 4)]
+slots = [open(f"/tmp/seedtools/.slot_{'full' if not sel else 'part'}_{i}", "w") for i in range(4 if not sel else 4)]
 held = None
 while held is None:
     for f in slots:
